@@ -128,11 +128,18 @@ def check_c07(pid, tier, seed, res, work):
                                        (0, ['A.java', 'B.java'])] + ([(7, ['a/Mid.java', 'zz/Last.java']), (12, ['0first/Gone.java'])] if tier == 'thorough' else [])
     if tier == 'thorough':
         plan.append((5, 'slow'))     # seconds of parsing per file: thorough tier only
+    # many SMALL files: far more than any fixed queue length or batch size somebody might introduce
+    plan.append((450 if tier == 'quick' else 2500, 'many'))
     for pi, (n, dangling) in enumerate(plan):
         slow = dangling == 'slow'
-        if slow:
+        many = dangling == 'many'
+        if slow or many:
             dangling = []
-        files = gen_project(rng, seed + pi, n, dup_fragments=not dangling)
+        if many:
+            files = [('m%d/T%04d.java' % (k % 9, k), ('class T%04d { int f%d = %d + 1; void m() { g(%d); } }\n' % (k, k, k, k)).encode()) for k in range(n)]
+            stats['many_small_files'] = n
+        else:
+            files = gen_project(rng, seed + pi, n, dup_fragments=not dangling)
         if slow:
             # files whose PARSE takes seconds (a class cut off inside a comment full of `/*`: tree-sitter's error
             # recovery is quadratic there), as many as there are workers, walked before the ordinary files: every
@@ -154,7 +161,7 @@ def check_c07(pid, tier, seed, res, work):
                 if rr.get('race'):
                     res.violations.append(dict(property='C07', what='data race during graph.Initialize', detail=rr['error'],
                                                project=[(p, d.decode('utf-8', 'replace')) for p, d in files], how='harness built with -race, `orders` on the project'))
-        r = orders_run(proj, work, 1 if slow else (6 if tier == 'quick' else 30), seed + pi)
+        r = orders_run(proj, work, 1 if slow else (2 if many else (6 if tier == 'quick' else 30)), seed + pi)
         if 'error' in r:
             res.tie_broken.append('orders campaign could not run: ' + r['error'])
             return stats, samples
